@@ -15,7 +15,7 @@ RULE = ('every table of 1..3 columns x 1 row over the cell alphabet {"", a, " ",
         '(QUOTE_MINIMAL / QUOTE_ALL, \\n / \\r\\n) for csv-raw and ob-csv, (b) tab-joined for ob-raw-dump, and parsed by generic_line_parser; '
         '(c) VW lines: every subset and order of 3 namespaces (+ an undeclared one), 0..3 prefixed tokens each, label with/without weight and tag, '
         'surplus spaces; (d) every namespace-map file of <= 3 lines over 3 ids x 4 type spellings; (e) the field-count test of the streaming '
-        'loop on 2-line files with one field removed/added; (f) sequence differential: every sequence of <= 3 lines from an 8-line menu parsed in one process state. distinct_nontrivial = distinct rendered lines with >= 2 fields')
+        'loop on 2-line files with one field removed/added; (f) the ob-vw source end to end (namespace map + gzipped file -> dataset description -> streaming loop); (g) sequence differential: every sequence of <= 3 lines from an 8-line menu parsed in one process state. distinct_nontrivial = distinct rendered lines with >= 2 fields')
 ASSUMPTIONS = ['csv.writer is the trusted renderer of well-formed CSV', 'cells contain no line breaks and (for TSV) no tab, VW tokens contain no space, "|" or "-"',
                'VW: for tokens after the first both readings of "without their two-character prefix" are accepted (verbatim or stripped)']
 
@@ -287,6 +287,69 @@ def _validity(job):
     return st
 
 
+def _vw_stream(_):
+    """the ob-vw source end to end: namespace map file + gzipped VW file -> get_dataset_info -> streaming loop; the rows entering the mini-batches must be the
+    per-line parses (every structure of the VW family, in one file), nothing shifted, nothing dropped"""
+    import gzip
+    from outrank import core_ranking as cr
+    from outrank import core_utils as cu
+    from outrank.core_utils import BatchRankingSummary
+    st = Stats()
+    d = scratch_dir('c16vw')
+    try:
+        with open(os.path.join(d, 'vw_namespace_map.csv'), 'w') as f:
+            f.write('AE,f1,f32\nAK,f2\nAs,f3,\n')
+        cases = [nss for i, nss in enumerate(vw_cases()) if i % 3 == 0]
+        lines, meta = [], []
+        for j, nss in enumerate(cases):
+            label_txt, label = LABELS[j % len(LABELS)]
+            lines.append(vw_line(label_txt, nss, j % 2 == 1))
+            meta.append((label, nss))
+        with gzip.open(os.path.join(d, 'data.vw.gz'), 'wt', encoding='utf-8') as f:
+            f.write('1 |AE AEheader\n')        # the streaming loop treats the first line of every file as a header
+            f.writelines(lines)
+        args = harness.make_args(data_source='ob-vw', data_path=d, minibatch_size=1, subsampling=1, heuristic='MI-numba-randomized')
+        ok, info = safe(cu.get_dataset_info, args)
+        st.count('evaluations')
+        if not ok:
+            st.violation({'kind': 'vw_stream'}, f'get_dataset_info raised {info}', {'kind': 'exception', 'source': 'vw_stream'})
+            return st
+        if list(info.column_names) != HEADER or dict(info.fw_map) != FW or set(info.column_types) != {'f1'}:
+            st.violation({'kind': 'vw_stream'}, f'dataset description {info.column_names} / {info.fw_map} / {info.column_types}', {'kind': 'vw_dataset_info'})
+            return st
+        rec = []
+
+        def recorder(line_tmp_storage, *a, **k):
+            rec.extend([list(r) for r in line_tmp_storage])
+            return BatchRankingSummary([], {}), {}, {}, {}
+
+        orig = cr.compute_batch_ranking
+        cr.compute_batch_ranking = recorder
+        try:
+            with harness.in_dir(d):
+                harness.reset_state()
+                ok, r = safe(cr.estimate_importances_minibatches, info.data_path, list(info.column_names), info.fw_map, info.column_types, args=args, data_encoding=info.encoding,
+                             cpu_pool=harness.InlinePool(), delimiter=info.col_delimiter, logger=harness.RecLogger())
+        finally:
+            cr.compute_batch_ranking = orig
+        if not ok:
+            st.violation({'kind': 'vw_stream'}, f'streaming loop raised {r}', {'kind': 'exception', 'source': 'vw_stream'})
+            return st
+        st.count('vw_stream_lines', len(lines))
+        st.count('nontrivial', len(lines))
+        if len(rec) != len(lines):
+            st.violation({'kind': 'vw_stream'}, f'{len(rec)} rows entered the mini-batches, the file has {len(lines)} data lines', {'kind': 'vw_stream_count'})
+            return st
+        for got, (label, nss), line in zip(rec, meta, lines):
+            msg = vw_expect_ok(list(got), label, nss)
+            if msg:
+                st.violation({'kind': 'vw_stream', 'line': line}, f'{line!r} entered its batch as {got!r}: {msg}', {'kind': 'vw_stream_row'})
+                break
+    finally:
+        rm_scratch(d)
+    return st
+
+
 SEQ_LINES = [
     ('ob-vw', "1 |AE AEx AE12 |AK AKa_b |As Asx\n"),
     ('ob-vw', "-1 |AK AK12\n"),
@@ -315,6 +378,8 @@ def _dispatch(item):
     k, job = item
     if k == 'seqdiff':
         return _seqdiff(job)
+    if k == 'vw_stream':
+        return _vw_stream(job)
     return {'tables': _tables, 'vw': _vw, 'ns': _nsmaps, 'validity': _validity}[k](job)
 
 
@@ -323,7 +388,7 @@ def run(ctx):
     jobs += [('tables', (3, lo, lo + 125)) for lo in range(0, 1000, 125)]
     nv = sum(1 for _ in vw_cases())
     jobs += [('vw', (lo, min(nv, lo + 200))) for lo in range(0, nv, 200)]
-    jobs += [('ns', None), ('validity', None), ('seqdiff', None)]
+    jobs += [('ns', None), ('validity', None), ('seqdiff', None), ('vw_stream', None)]
     for st in pmap(_dispatch, jobs):
         ctx.stats.merge(st)
     ctx.extra['vw_structures'] = nv
@@ -336,6 +401,8 @@ def eval_case(case):
     k = case['kind']
     if k == 'seqdiff':
         return seqdiff.replay(seq_call, SEQ_LINES, case['seq'])
+    if k == 'vw_stream':
+        return [v['what'] for v in _vw_stream(None).violations]
     if k == 'csv':
         q = csv.QUOTE_MINIMAL if case['quoting'] == 'minimal' else csv.QUOTE_ALL
         check_line(case['source'], render_csv(case['row'], q, case['eol']), case.get('delimiter', ','), case['row'], st, case)
